@@ -213,6 +213,14 @@ def run_case(ctx, ws, case):
             failures.append(("default octree does not tile the base grid exactly once", "C17:octree:tiling"))
         if len(cent) != len(cells):
             failures.append((f"{len(cent)} centres for {len(cells)} cells", "C17:octree:count"))
+        else:
+            # format document: the centre of record (I, J, K, n) is ((I, J, K) + n/2) * cell size, rotated about the origin
+            for idx, (i, j, kk, n) in enumerate(cells):
+                lu, lv, lw = (i + n / 2) * case["hu"], (j + n / 2) * case["hv"], (kk + n / 2) * case["hw"]
+                e = np.array([c * lu - s * lv + o[0], s * lu + c * lv + o[1], lw + o[2]])
+                if not np.allclose(cent[idx], e, atol=1e-9):
+                    failures.append((f"octree cell {(i, j, kk, n)} has centre {cent[idx]}, its record says {e}", "C17:octree:centre"))
+                    break
         line = [{"m": "grid", "op": "octbase", "u": case["u"], "v": case["v"], "w": case["w"]},
                 {"m": "grid", "op": "octcent", "o": [fr(x) for x in o], "c": fr(c), "s": fr(s), "hu": fr(case["hu"]),
                  "hv": fr(case["hv"]), "hw": fr(case["hw"]), "cells": cells}]
